@@ -169,11 +169,11 @@ CHECKS["C09"] = {
     "text": "All 2^16 arguments of every unary half function (26 entry points) and of the rounding/decomposition family, all halves x exponents [-60,60] u {INT_MIN, INT_MAX} for ldexp/scalbn/scalbln, and for the 11 binary "
             "functions all pairs over a 1000-value alphabet (every pair judged by MPFR) plus a 3976-value alphabet (quick) / ALL 2^32 ordered pairs (thorough, glibc double pre-filter, MPFR for every undecided pair, every mismatch "
             "and every accepted 1-ULP difference). The verdict is MPFR correctly rounded to binary16 (precision 11, emin/emax of binary16, mpfr_subnormalize), itself cross-checked against 256-bit MPFR with an independent "
-            "integer rounding routine. Functions documented exact must match bit for bit, the eight 1-ULP functions within one ULP. Each sweep runs in a forked child so a crash or hang is attributed to an input.",
+            "integer rounding routine. Functions documented exact must match bit for bit, the eight 1-ULP functions within one ULP. Each sweep runs in a forked child so a crash or hang is attributed to an input. Part 10 enumerates CALL HISTORIES: for each argument relation (same, negated, next bit pattern, neighbouring binade / mantissa, constant special values) and all 2^16 arguments, every ordered pair of entry points (39 unary / float-like ones, up to 127 with sections of the binary functions) as consecutive calls along an Eulerian circuit of the complete digraph, and first calls in newly created threads; results are compared with each function's isolated sweep and judged by MPFR when they differ.",
     "design_ref": "DESIGN.md section 3, C09",
     "note": "Trusted: MPFR/GMP (cross-checked), glibc float functions for the rounding family. Only the shipped configuration (round-to-nearest, software conversions) is judged. Thorough completes all 2^32 pairs for 10 of 11 "
-            "binary functions within its deadline on a loaded machine and reports a cap for pow when it does not finish.",
-    "technique": "exhaustive input enumeration (all 2^16 arguments; alphabets squared / all 2^32 pairs) against a correctly rounded MPFR reference",
+            "binary functions within its deadline on a loaded machine and reports a cap for pow when it does not finish. Besides the shipped configuration the directed HALF_ROUND_STYLE and error-handling builds are judged (parts 9, 10). Histories are bounded to adjacent pairs within the stated relations; concurrent calls from several threads are not enumerated.",
+    "technique": "exhaustive input enumeration (all 2^16 arguments; alphabets squared / all 2^32 pairs) against a correctly rounded MPFR reference; exhaustive enumeration of two-call histories (all ordered function pairs x all arguments x an argument-relation alphabet)",
 }
 CHECKS["C10"] = {
     "engine": "E3-exhaustive-enumerator",
@@ -203,10 +203,10 @@ CHECKS["C20"] = {
     "category": "exploration",
     "text": "Configuration enumeration: a helper built from /repo/include is installed at every path of a stated alphabet - depth x total length (boundary lengths around 256, 512, 1024, 2048, 4095; thorough: every length 57..4095) x "
             "component flavour (plain, spaces, UTF-8, non-UTF-8 high bytes, leading dot, control/shell characters) x invocation (direct, relative, symlink to file, symlinked directory, symlink chain) x build (ASan, plain) - and "
-            "started in a forked child; the driver never includes xtl and judges executable_path()/prefix_path() against the path it created itself, endianness() against three independent byte inspections, ASan as over-read observer.",
+            "started in a forked child; the driver never includes xtl and judges executable_path()/prefix_path() against the path it created itself, endianness() against three independent byte inspections, ASan as over-read observer. Grid G adds the ACCESS CONTEXT of the calling process: restricted directory (none / one / every) x rights left to the caller (---, r--, --x) x file mode (0755, 0111) x six launch kinds (root, privilege drop after start, fexecve, /proc/self/fd/N, inherited cwd, owner revokes own rights), each case probed against the kernel.",
     "design_ref": "DESIGN.md section 3, C20",
-    "note": "Trusted: the driver's own path construction. Linux/x86-64/ext4 only; other platform branches are unreachable here. Name lengths are uniform within a path.",
-    "technique": "exhaustive enumeration of an install-path alphabet (depth x length x flavour x invocation) with an out-of-process oracle",
+    "note": "Trusted: the driver's own path construction. Linux/x86-64/ext4 only; other platform branches are unreachable here. Name lengths are uniform within a path. Grid G needs root with a usable setuid (otherwise reduced and reported as a cap); only uid/gid 65534 without groups; no ACLs, capability-only drops, chroot or namespaces.",
+    "technique": "exhaustive enumeration of an install-path alphabet (depth x length x flavour x invocation) with an out-of-process oracle and of process access contexts",
 }
 
 CHECKS["C13"] = {
@@ -216,9 +216,9 @@ CHECKS["C13"] = {
             "decode of arbitrary text: ALL strings of length 0..3 (0..4) over all 256 byte values, all strings of length 4..6 (5..8) over a 13-character alphabet of alphabet/padding/whitespace/url-safe/NUL/high bytes, and valid "
             "prefixes followed by every such tail in exact-size heap blocks. Reference: an independent RFC 4648 codec (refs/C13_rfc4648.hpp, range arithmetic, bit-by-bit decode) that is cross-checked against python's base64 "
             "module on every run; decode oracle = the statement's 'longest leading run of alphabet characters, whole bytes only'. Each chunk runs in a forked child under ASan + UBSan bounds + _GLIBCXX_ASSERTIONS so an "
-            "out-of-table index is attributed to its input.",
+            "out-of-table index is attributed to its input. TARGET-ISA builds: the harness is also built per instruction-set option set (-march=native, x86-64-v2/v3/v4, -mbmi2, -mavx2, -msse4.2, -mssse3, AVX-512 VBMI; sets the CPU cannot run are a reported gap) and all strings of length 0..2 (thorough 0..3), the structured families and every length 0..1500/3000 are enumerated in each. HUGE part: an input of exactly 2^31 bytes (thorough: every length 2^31-1..2^31+3 and 2^32-1..2^32+3) is encoded and compared character by character with a streaming RFC 4648 encoder, and its padded and unpadded reference text is decoded back.",
     "design_ref": "DESIGN.md section 3, C13",
-    "note": "Trusted: the reference codec (cross-checked with python base64). Exhaustive over all byte values up to length 3 (4); longer inputs only through the structured families. The two 2^32 families of the thorough tier run without ASan/UBSan.",
+    "note": "Trusted: the reference codec (cross-checked with python base64). Exhaustive over all byte values up to length 3 (4); longer inputs only through the structured families. The two 2^32 families of the thorough tier run without ASan/UBSan. Lengths between 2^26+32 and 2^31-2 and beyond 2^32+3 are not enumerated. The huge part needs about 7 GiB (quick) / 14 GiB per process (thorough); std::bad_alloc is a reported cap.",
     "technique": "exhaustive input enumeration (all byte strings up to a length bound) against an independent RFC 4648 reference and the specification decode function",
 }
 
